@@ -27,7 +27,9 @@ PROP = "C06"
 RULE = ("random objective/box/N=1..5/density/r/eps/itersLimit; the run is stepped by DoGlobalIteration(k) (k mostly 1) or by "
         "Solve with an OnEndIteration listener, and the complete record is tested after every iteration (refineSolution=False; "
         "the record after a local refinement is not claimed by the property's 'after any number of iterations'); 12% of the runs "
-        "start with a failing first evaluation (contained by Solve) and are then started again; in 18% another solver is built and "
+        "start with a failing first evaluation (contained by Solve) and are then started again; in 10% a LATER evaluation (the 2nd..25th) raises "
+        "once - contained by Solve, or caught by the caller of DoGlobalIteration who carries on - and the record is audited right after the "
+        "failure and after every further step; in 18% another solver is built and "
         "run before the record is audited once more. Distinct by "
         "parameter set + stepping pattern; non-trivial if >= 4 trials were recorded (so insertions happened on both sides and "
         "between evaluated neighbours).")
@@ -64,8 +66,9 @@ def _check_case(case, front):
                 check_now("OnMethodStop")
 
     ff = bool(case.get("first_fails"))
+    fa = case.get("fails_at")           # a LATER evaluation (the k-th, k >= 2) raises once: a transient failure of the objective
     run = oc.Run(case, listeners=(front or []) + ([Rec()] if case.get("listener", True) else []),
-                 fail_at=1 if ff else None, exc=ValueError if ff else None)
+                 fail_at=1 if ff else fa, exc=ValueError if (ff or fa) else None)
     holder[0] = run
     holder[1] = oc.RecordChecker(run)
     err = None
@@ -83,12 +86,31 @@ def _check_case(case, front):
                 vs.append(oc.violation(PROP, case, "nothing-recorded-after-failed-first-trial",
                                        {"GetCount": n0, "reported_trials": run.solver.GetResults().numberOfGlobalTrials}))
         for b in case.get("batches", []):
+            if fa:
+                # the caller catches the failure of a step and carries on: the trial that failed was never evaluated, so it is not
+                # part of the record - and the record is still exactly the trials made
+                import contextlib
+                try:
+                    with contextlib.redirect_stdout(run.out):
+                        run.solver.DoGlobalIteration(b)
+                except ValueError:
+                    pass
+                if run.problem.log:
+                    check_now("after DoGlobalIteration (one evaluation failed on the way)")
+                continue
             ok = run.iterate(b)
             if run.problem.log:
                 check_now("after DoGlobalIteration" if ok else "after float collapse")
             if not ok:
                 break
         if case.get("solve", True):
+            if fa:
+                import contextlib
+                with contextlib.redirect_stdout(run.out):
+                    run.solver.Solve()        # contains the failure (if it is still to come) and returns
+                if run.problem.log:
+                    check_now("after Solve (one evaluation failed on the way)")
+                run.out.truncate(0); run.out.seek(0)
             run.solve()
             check_now("after Solve")
         if case.get("other_solver") and run.problem.log and not run.collapsed:
@@ -130,6 +152,10 @@ def gen(r):
     v = r.random()
     if v < 0.12:
         case["first_fails"] = True
+    elif v > 0.9 and case["lim"] >= 5 and not case.get("refine"):
+        case["fails_at"] = r.randint(2, min(case["lim"] - 1, 25))
+        for k_ in ("shipped", "bg"):
+            case.pop(k_, None)
     elif v < 0.3:
         case["other_solver"] = oc.gen_case(r, lim=r.choice([3, 8, 30]))
     elif v < 0.42 and case["lim"] <= 40 and not case.get("refine"):
